@@ -308,9 +308,11 @@ impl ToLinker {
             if sri.matches(&linker_sri).is_none() {
                 return Err(ssri::Error::IntegrityCheckError(sri.clone(), linker_sri).into());
             }
-        } else {
-            self.opts.sri = Some(linker_sri.clone());
         }
+        // Index the entry under the address the content was stored at. A
+        // declared integrity may list several hashes; only the computed one
+        // is guaranteed to name the content file.
+        self.opts.sri = Some(linker_sri.clone());
         if let Some(size) = self.opts.size {
             if size != self.read {
                 return Err(Error::SizeMismatch(size, self.read));
@@ -452,9 +454,11 @@ impl SyncToLinker {
             if sri.matches(&linker_sri).is_none() {
                 return Err(ssri::Error::IntegrityCheckError(sri.clone(), linker_sri).into());
             }
-        } else {
-            self.opts.sri = Some(linker_sri.clone());
         }
+        // Index the entry under the address the content was stored at. A
+        // declared integrity may list several hashes; only the computed one
+        // is guaranteed to name the content file.
+        self.opts.sri = Some(linker_sri.clone());
         if let Some(size) = self.opts.size {
             if size != self.read {
                 return Err(Error::SizeMismatch(size, self.read));
